@@ -26,7 +26,7 @@ struct Baseline {
 
 fn life_cfg(heartbeat: u16) -> LifeCfg {
     LifeCfg {
-        consumer_ends: vec![ConsumerEnd::ClientCancel, ConsumerEnd::ServerCancel { nowait: false }, ConsumerEnd::Drop, ConsumerEnd::ClientCancel],
+        consumer_ends: vec![ConsumerEnd::ClientCancel, ConsumerEnd::ServerCancel { nowait: false }, ConsumerEnd::Drop, ConsumerEnd::DropWhole, ConsumerEnd::ClientCancel],
         channel_ends: vec![ChannelEnd::Normal],
         conn_ends: vec![ConnEnd::Normal],
         max_threads: 3,
